@@ -26,6 +26,7 @@ type astCanon struct {
 	stripZero func(e *ast.BinaryExpr) ast.Expr // optional: fork-zero term stripping (returns replacement or nil)
 	skipElt   func(lit *ast.CompositeLit, elt ast.Expr) bool // optional: omit a composite-literal element (fork-only key)
 	skipField func(name string) bool                   // optional: omit a field of a function-local struct type
+	subst     map[types.Object]string                  // optional: print these locals as the given text (helper parameters bound to the caller's arguments)
 }
 
 func (c *astCanon) obj(id *ast.Ident) types.Object {
@@ -58,6 +59,21 @@ func (c *astCanon) ident(id *ast.Ident) string {
 		}
 		if isPkgLevel(o) {
 			return normPath(o.Pkg().Path()) + "." + o.Name()
+		}
+		if s, ok := c.subst[o]; ok {
+			return s
+		}
+		if x, ok := ptrTempExpr[o]; ok && c.info.Defs[id] == nil {
+			return c.expr(x)
+		}
+		if x, ok := inlineArg[o]; ok && c.info.Defs[id] == nil {
+			return c.expr(x)
+		}
+		if x, ok := valTempExpr[o]; ok && c.info.Defs[id] == nil {
+			if _, isBin := ast.Unparen(x).(*ast.BinaryExpr); isBin {
+				return "(" + c.expr(x) + ")"
+			}
+			return c.expr(x)
 		}
 		if isCtxType(o.Type()) {
 			return "ctx"
@@ -96,9 +112,24 @@ func (c *astCanon) ident(id *ast.Ident) string {
 func (c *astCanon) exprs(es []ast.Expr) string {
 	var out []string
 	for _, e := range es {
-		out = append(out, c.expr(e))
+		out = append(out, c.operand(e))
 	}
 	return strings.Join(out, ", ")
+}
+
+// operand prints an expression in a position where no parentheses are needed (a list element, a call
+// argument, a keyed value): a value temporary defined by a binary expression prints bare there.
+func (c *astCanon) operand(e ast.Expr) string {
+	if id, ok := e.(*ast.Ident); ok && c.info.Defs[id] == nil {
+		if o, ok := c.obj(id).(*types.Var); ok && !o.IsField() && !isPkgLevel(o) && c.subst[o] == "" {
+			if x, ok := valTempExpr[o]; ok {
+				if _, isBin := ast.Unparen(x).(*ast.BinaryExpr); isBin {
+					return c.expr(ast.Unparen(x))
+				}
+			}
+		}
+	}
+	return c.expr(e)
 }
 
 func (c *astCanon) isCtxExpr(e ast.Expr) bool {
@@ -173,7 +204,7 @@ func (c *astCanon) expr(e ast.Expr) string {
 			if c.isCtxExpr(a) {
 				continue
 			}
-			args = append(args, c.expr(a))
+			args = append(args, c.operand(a))
 		}
 		s := c.expr(x.Fun) + "(" + strings.Join(args, ", ")
 		if x.Ellipsis.IsValid() {
@@ -192,7 +223,7 @@ func (c *astCanon) expr(e ast.Expr) string {
 		}
 		return c.expr(x.X) + " " + x.Op.String() + " " + c.expr(x.Y)
 	case *ast.KeyValueExpr:
-		return c.expr(x.Key) + ": " + c.expr(x.Value)
+		return c.expr(x.Key) + ": " + c.operand(x.Value)
 	case *ast.CompositeLit:
 		elts := x.Elts
 		if c.skipElt != nil {
@@ -324,7 +355,7 @@ func (c *astCanon) header(s ast.Stmt) (string, [][]ast.Stmt) {
 		if fl, ok := x.Call.Fun.(*ast.FuncLit); ok {
 			var args []string
 			for _, a := range x.Call.Args {
-				args = append(args, c.expr(a))
+				args = append(args, c.operand(a))
 			}
 			return "defer func(" + c.fieldList(fl.Type.Params) + ")<-(" + strings.Join(args, ", ") + ")", [][]ast.Stmt{fl.Body.List}
 		}
@@ -395,4 +426,158 @@ func (c *astCanon) header(s ast.Stmt) (string, [][]ast.Stmt) {
 		return h, bodies
 	}
 	return fmt.Sprintf("<%T>", s), nil
+}
+
+// ptrTempExpr: locals `p := &X` of DELTA functions that only name the location X (see ptrTemps); a use
+// of p prints as X, so that `p.f = v` and `X.f = v` are the same statement (Go dereferences p.f implicitly).
+var ptrTempExpr = map[types.Object]ast.Expr{}
+
+// ptrTemps registers the pointer temporaries of one function: p is defined once by `p := &X`, never
+// re-assigned and its own address never taken; X is a path of identifiers, field selections and indexings
+// whose indices are call-free except for len(); and after the definition nothing in the function can move
+// X: no assignment to a prefix of X or to a path X's indices read, and no call that is handed the root
+// variable of X (as receiver or argument).
+func ptrTemps(info *types.Info, fd *ast.FuncDecl) {
+	if fd == nil || fd.Body == nil {
+		return
+	}
+	plain := &astCanon{info: info}
+	type cand struct {
+		def   *ast.AssignStmt
+		x     ast.Expr
+		paths map[string]bool
+		roots map[types.Object]bool
+	}
+	cands := map[types.Object]*cand{}
+	var isPath func(e ast.Expr, c *cand, index bool) bool
+	isPath = func(e ast.Expr, c *cand, index bool) bool {
+		switch x := ast.Unparen(e).(type) {
+		case *ast.Ident:
+			if o, ok := info.Uses[x].(*types.Var); ok && !isPkgLevel(o) {
+				c.roots[o] = true
+				c.paths[plain.expr(x)] = true
+				return true
+			}
+			_, isConst := info.Uses[x].(*types.Const)
+			return isConst && index
+		case *ast.SelectorExpr:
+			if _, ok := info.Selections[x]; !ok {
+				return false
+			}
+			c.paths[plain.expr(x)] = true
+			return isPath(x.X, c, index)
+		case *ast.IndexExpr:
+			c.paths[plain.expr(x)] = true
+			return isPath(x.X, c, index) && isPath(x.Index, c, true)
+		case *ast.BasicLit:
+			return index
+		case *ast.BinaryExpr:
+			return index && (x.Op == token.ADD || x.Op == token.SUB) && isPath(x.X, c, true) && isPath(x.Y, c, true)
+		case *ast.CallExpr:
+			if id, ok := x.Fun.(*ast.Ident); ok && index && len(x.Args) == 1 {
+				if b, ok := info.Uses[id].(*types.Builtin); ok && b.Name() == "len" {
+					return isPath(x.Args[0], c, true)
+				}
+			}
+		}
+		return false
+	}
+	ast.Inspect(fd.Body, func(n ast.Node) bool {
+		as, ok := n.(*ast.AssignStmt)
+		if !ok || as.Tok != token.DEFINE || len(as.Lhs) != 1 || len(as.Rhs) != 1 {
+			return true
+		}
+		id, ok := as.Lhs[0].(*ast.Ident)
+		u, ok2 := ast.Unparen(as.Rhs[0]).(*ast.UnaryExpr)
+		if !ok || !ok2 || u.Op != token.AND || info.Defs[id] == nil {
+			return true
+		}
+		c := &cand{def: as, x: u.X, paths: map[string]bool{}, roots: map[types.Object]bool{}}
+		if _, isLit := ast.Unparen(u.X).(*ast.CompositeLit); !isLit && isPath(u.X, c, false) {
+			cands[info.Defs[id]] = c
+		}
+		return true
+	})
+	if len(cands) == 0 {
+		return
+	}
+	mentionsRoot := func(e ast.Expr, c *cand) bool {
+		found := false
+		ast.Inspect(e, func(n ast.Node) bool {
+			if id, ok := n.(*ast.Ident); ok && c.roots[info.Uses[id]] {
+				found = true
+			}
+			return !found
+		})
+		return found
+	}
+	ast.Inspect(fd.Body, func(n ast.Node) bool {
+		switch x := n.(type) {
+		case *ast.AssignStmt:
+			for _, l := range x.Lhs {
+				if id, ok := l.(*ast.Ident); ok {
+					if c := cands[info.Uses[id]]; c != nil && x != c.def {
+						delete(cands, info.Uses[id])
+					}
+				}
+				for o, c := range cands {
+					if x.Pos() > c.def.Pos() && c.paths[plain.expr(l)] {
+						delete(cands, o)
+					}
+				}
+			}
+		case *ast.IncDecStmt:
+			for o, c := range cands {
+				if id, ok := x.X.(*ast.Ident); ok && info.Uses[id] == o {
+					delete(cands, o)
+				} else if x.Pos() > c.def.Pos() && c.paths[plain.expr(x.X)] {
+					delete(cands, o)
+				}
+			}
+		case *ast.RangeStmt:
+			for o, c := range cands {
+				for _, kv := range []ast.Expr{x.Key, x.Value} {
+					if kv != nil && x.Pos() > c.def.Pos() && c.paths[plain.expr(kv)] {
+						delete(cands, o)
+					}
+				}
+			}
+		case *ast.UnaryExpr:
+			if id, ok := ast.Unparen(x.X).(*ast.Ident); ok && x.Op == token.AND {
+				delete(cands, info.Uses[id])
+			}
+		case *ast.CallExpr:
+			if tv, ok := info.Types[x.Fun]; ok && tv.IsType() {
+				return true
+			}
+			if id, ok := x.Fun.(*ast.Ident); ok {
+				if _, isB := info.Uses[id].(*types.Builtin); isB {
+					return true
+				}
+			}
+			for o, c := range cands {
+				if x.Pos() < c.def.Pos() {
+					continue
+				}
+				bad := false
+				if sel, ok := x.Fun.(*ast.SelectorExpr); ok {
+					if _, isMethod := info.Selections[sel]; isMethod && mentionsRoot(sel.X, c) {
+						bad = true
+					}
+				}
+				for _, a := range x.Args {
+					if mentionsRoot(a, c) {
+						bad = true
+					}
+				}
+				if bad {
+					delete(cands, o)
+				}
+			}
+		}
+		return true
+	})
+	for o, c := range cands {
+		ptrTempExpr[o] = c.x
+	}
 }
